@@ -107,6 +107,7 @@ class C07(Check):
         rng = ctx.sub_rng('c07')
         self.corr_detect(ctx, c, rng)
         self.corr_text(ctx, c, rng)
+        self.corr_incdec(ctx, c, rng)
         self.oracle_spec(ctx, c, rng)
         self.oracle_roundtrip_chunking(ctx, c, rng)
 
@@ -174,6 +175,57 @@ class C07(Check):
             if m is not None and m != got:
                 ctx.disagree('detectencoding_unicode' if kind == 'u' else '_fixencoding',
                              {'text': s, 'final': final, 'encoding': name}, got, m)
+
+    # -- correspondence: the IncrementalDecoder state machine (Model/CodecInc.lean) ------------------
+    def corr_incdec(self, ctx, c, rng):
+        """ASCII data and ASCII-compatible encodings, so CPython's inner codec is the identity on code points —
+        exactly the `idInner` the driver instantiates the machine with. Compared per chunk: output, and
+        before the final call: decoder present?, encoding, buffer, headerfixed."""
+        lines, cases = [], []
+        names = ['latin-1', 'ascii', 'utf-8', 'iso-8859-1', 'cp1252']
+        for _ in range(ctx.n(2500, 60000)):
+            r = rng.random()
+            body = ''.join(rng.choice(['a', '{', '}', ' ', '"', '@', 'x:y', '\n', ';', '@charset "', 'c']) for _ in range(rng.randint(0, 8)))
+            if r < 0.6:
+                text = PREFIX + rng.choice(names) + rng.choice(['";', '"', '"; ']) + body
+            elif r < 0.8:
+                text = PREFIX[:rng.randint(0, 10)] + body
+            else:
+                text = body
+            data = text.encode('ascii')
+            n = len(data)
+            k = rng.randint(0, min(5, n))
+            cuts = sorted(rng.randint(0, n) for _ in range(k))
+            parts = [data[a:b] for a, b in zip([0] + cuts, cuts + [n])]
+            given = rng.choice([None, None, 'latin-1', 'ascii', 'utf-8'])
+            force = rng.random() < 0.5
+            lines.append('incdec %s %d %s' % ('none' if given is None else enc(given), force,
+                                              ' '.join(encb(p) for p in parts)))
+            cases.append((parts, given, force))
+        out = ctx.driver(lines) if ctx.model_ok else [None] * len(lines)
+        for (parts, given, force), m in zip(cases, out):
+            d = c.IncrementalDecoder(encoding=given, force=force)
+            try:
+                outs = [d.decode(p, False) for p in parts]
+                codecs.getdecoder('css')(b''.join(parts), encoding=given, force=force)
+            except LookupError:
+                ctx.count('incdec:unknown-encoding-name (skipped: codec lookup is not modelled)')
+                continue
+            if d.decoder is None:
+                st = 'W:' + encb(d.buffer)
+            elif not d.headerfixed:
+                st = 'D:%s:%s' % (enc(d.encoding), enc(d.buffer))
+            else:
+                st = 'S:' + enc(d.encoding)
+            fin = d.decode(b'', True)
+            one = codecs.getdecoder('css')(b''.join(parts), encoding=given, force=force)[0]
+            got = '%s | %s | %s | %s' % (' '.join(enc(o) for o in outs), enc(fin), st, enc(one))
+            ctx.case(key=('incdec', tuple(parts), given, force), nontrivial=len(parts) > 1, kind='incdec:' + st[0],
+                     sample={'incdec_chunks': [p.decode('ascii') for p in parts], 'encoding': given, 'force': force,
+                             'outputs': outs + [fin]})
+            if m is not None and ' '.join(m.split()) != ' '.join(got.split()):
+                ctx.disagree('IncrementalDecoder state machine', {'chunks': [p.hex() for p in parts],
+                             'encoding': given, 'force': force}, got, m)
 
     def gen_text(self, rng):
         body = ''.join(rng.choice(['a', '{', '}', ' ', 'é', '€', '"', '@', 'x:y', '\n', '\U0001F600', 'ü', ';'])
